@@ -72,6 +72,9 @@ func genC11(c *Ctx) {
 	k := 0
 	for size := 3; size <= 8; size++ {
 		sz := strconv.Itoa(size)
+		if size%c.NShard == c.Shard {
+			c.Emit("shapecount " + sz)
+		}
 		for _, m := range legalShapes(size) {
 			k++
 			if k%c.NShard != c.Shard {
@@ -87,6 +90,7 @@ func genC11(c *Ctx) {
 			short := ptn.FormatMove(m)
 			long := ptn.FormatMoveLong(m)
 			srv := playtak.FormatServer(m)
+			c.Emit("shape " + sz + " " + mt)
 			c.Emit("fmtmove " + mt)
 			c.Emit("fmtmovelong " + mt)
 			c.Emit("fmtserver " + mt)
@@ -112,9 +116,11 @@ func genC11(c *Ctx) {
 	// theorems; keeps the formatter models honest about int8/uint8 wrap-around and odd type codes)
 	n := c.Scale(8000, 400000)
 	for i := 0; i < n; i++ {
-		m := rawMove(c.R, 3+c.R.Intn(6))
+		size := 3 + c.R.Intn(6)
+		m := rawMove(c.R, size)
 		mt := encMove(m)
 		c.Count("rawmove")
+		c.Count("rawmove.shape=" + c.Emit("shape "+strconv.Itoa(size)+" "+mt))
 		c.Emit("fmtmove " + mt)
 		c.Emit("fmtmovelong " + mt)
 		c.Emit("fmtserver " + mt)
